@@ -15,6 +15,7 @@ Statement kinds
 from __future__ import annotations
 
 FIELD_NAMES = ["A", "B", "C", "D", "E", "F"]
+INDEX_ARGS = ("%n0", "%n1", "%n2", "%l0", "%t0")
 PURE_OPS = ["addi", "muli", "subi", "xori"]
 
 
@@ -92,6 +93,9 @@ class AccfgGen:
         if True:
             a = r.randrange(p["n_acc"])
             st = {"k": "sl", "acc": a, "vals": [self.pick(scope) for _ in range(p["n_fields"][a])], "gap": []}
+            if p.get("index_vals"):
+                # some fields are configured with index-typed values (several of them arguments of the same block)
+                st["vals"] = [r.choice(INDEX_ARGS) if r.random() < p["index_vals"] else v for v in st["vals"]]
             prev = self.history.get(a)
             if prev and p.get("repeat_bias") and r.random() < p["repeat_bias"]:
                 # the same configuration again (possibly with one field changed): where deduplication has most to remove.
@@ -274,7 +278,8 @@ def emit(ast, acc_names=None, vty="i32", decls=()) -> str:
         if k == "sl":
             acc = names[s["acc"]]
             st, tk = fresh("s"), fresh("t")
-            fs = ", ".join(f'"{f}" = {v} : {vty}' for f, v in zip(acc["fields"], s["vals"]))
+            # values named %n.. / %l0 / %t0 are the index-typed function arguments (C04: the lowering has to cast them)
+            fs = ", ".join(f'"{f}" = {v} : {"index" if v in INDEX_ARGS else vty}' for f, v in zip(acc["fields"], s["vals"]))
             an = acc["name"]
             frm = f" from {link}" if link else ""
             e(ind, f'{st} = accfg.setup "{an}"{frm} to ({fs}) : !accfg.state<"{an}">')
